@@ -18,6 +18,19 @@ def _rets(f: FunctionInfo) -> List[ast.Return]:
     return [n for n in own_nodes(f.node) if isinstance(n, ast.Return)]
 
 
+def _is_items_key(f: FunctionInfo, e: ast.AST) -> bool:
+    """``e`` is the key variable of an enclosing ``for key, value in <dict>.items()`` loop (whatever it is called)"""
+    if not isinstance(e, ast.Name):
+        return False
+    for lp in own_nodes(f.node):
+        if isinstance(lp, (ast.For, ast.comprehension)) and isinstance(lp.target, ast.Tuple) and len(lp.target.elts) == 2 \
+                and isinstance(lp.target.elts[0], ast.Name) and lp.target.elts[0].id == e.id \
+                and isinstance(lp.iter, ast.Call) and isinstance(lp.iter.func, ast.Attribute) and lp.iter.func.attr == "items":
+            if isinstance(lp, ast.comprehension) or any(x is e for x in ast.walk(lp)):
+                return True
+    return e.id == "key"
+
+
 def rule_mapagree(ctx: Ctx) -> RuleResult:
     """the same mapping tables are read forward in path_to_dict and reversed in dict_to_path"""
     res = RuleResult("R-MAPAGREE")
@@ -43,7 +56,7 @@ def rule_mapagree(ctx: Ctx) -> RuleResult:
     for f, reads in ((p2d, a), (d2p, b)):
         for c in reads["typed"]:
             t = c.args[0]
-            if not (len(t.elts) == 2 and norm(t.elts[0]) == "key"):
+            if not (len(t.elts) == 2 and _is_items_key(f, t.elts[0])):
                 res.violation([f.qualname, norm(c), "typed mapping key"], f"{f.short}: `{norm(c)}` is not keyed by (key, type)", f.relpath, c.lineno)
     # forward: value -> mapping.get(value, value); reverse: get_key(mapping, value, value)
     fwd = [n for g in family(ctx, p2d) for n in own_nodes(g.node) if isinstance(n, ast.Call) and isinstance(n.func, ast.Attribute)
